@@ -148,7 +148,12 @@ impl DcpsDomainParticipant {
                                     crate::xtypes::dynamic_type::TypeKind::BYTE => todo!(),
                                     crate::xtypes::dynamic_type::TypeKind::INT16 => todo!(),
                                     crate::xtypes::dynamic_type::TypeKind::INT32 => {
-                                        let member_value = data.get_int32_value(member_id).unwrap();
+                                        // A sample that does not carry the member (truncated appendable
+                                        // or mutable data) does not pass the filter
+                                        let Ok(member_value) = data.get_int32_value(member_id)
+                                        else {
+                                            continue;
+                                        };
                                         if !comparison_function.compare_int32(
                                             member_value,
                                             &content_filtered_topic.expression_parameters[0]
@@ -171,8 +176,10 @@ impl DcpsDomainParticipant {
                                     crate::xtypes::dynamic_type::TypeKind::CHAR16 => todo!(),
                                     crate::xtypes::dynamic_type::TypeKind::STRING8
                                     | crate::xtypes::dynamic_type::TypeKind::STRING16 => {
-                                        let member_value =
-                                            data.get_string_value(member_id).unwrap();
+                                        let Ok(member_value) = data.get_string_value(member_id)
+                                        else {
+                                            continue;
+                                        };
                                         if !comparison_function.compare_string(
                                             member_value,
                                             &content_filtered_topic.expression_parameters[0],
